@@ -91,8 +91,11 @@ def _prune_cache(keep):
         if os.path.basename(d) != keep:
             ents.append((os.path.getmtime(d), d))
     ents.sort()
-    for _, d in ents[:-3] if len(ents) > 3 else []:
-        shutil.rmtree(d, ignore_errors=True)
+    # only entries nobody can still be reading: another check may be running on another tree with the same cache directory
+    now = time.time()
+    for mt, d in ents[:-3] if len(ents) > 3 else []:
+        if now - mt > 1800:
+            shutil.rmtree(d, ignore_errors=True)
 
 
 class Facts:
